@@ -89,6 +89,7 @@ pub fn ref_plan(op: &Op, env: &Option<String>) -> Plan {
         heap_perturb: 0,
         alloc_yield_mean: 0,
         clock_step_ns: 0,
+        block_yield_mean: 0,
     }
 }
 
